@@ -810,7 +810,7 @@ pub fn c19(case_seed: u64, acc: &mut Acc) {
         let loaded = guarded(|| digital_test_runner::dig::File::parse(&doc).map_err(|e| err_chain(&e)).and_then(|f| f.load_test(0).map_err(|e| err_chain(&e))));
         match loaded {
             Ok(Ok(tc)) => {
-                let run = run_bound(&tc, &case.signals, &case.script, &RunOpts { max_steps: ran.rf.items.len() + 4, probe_after_end: 0, stop_at_error: true, seed: Some(case.rng_seed) });
+                let run = run_bound(&tc, &case.signals, &case.script, &RunOpts { max_steps: ran.rf.items.len() + 4, probe_after_end: 0, stop_at_error: true, seed: Some(case.rng_seed), continue_on: None });
                 let got: Vec<usize> = run.3.iter().filter_map(|s| if let RealItem::Row(r) = &s.item { Some(r.line) } else { None }).collect();
                 let want: Vec<usize> = ran.real.steps.iter().filter_map(|s| if let RealItem::Row(r) = &s.item { Some(r.line) } else { None }).collect();
                 if got != want {
